@@ -210,7 +210,7 @@ Inductive status :=
 | StPktClaimed     (* a handle_proxied_packet hook returned truthy: nothing else happens *)
 | StHandled        (* handle_lludp_message returned truthy: not forwarded by the proxy *)
 | StForward        (* reached the final "send unless finalized" step *)
-| StEscaped.       (* an exception left handle_proxied_packet *)
+| StEscaped.       (* an exception left handle_proxied_packet (proved unreachable: C07_proxy_never_trips_own_guard) *)
 
 (* the RLV loop of handle_lludp_message, commands i, i+1, .. (fuel = number of commands left) *)
 Fixpoint rlv_loop (fuel i : nat) (mods : list modcfg) (m : mst) (all : bool) : mst * list ev * bool :=
@@ -233,13 +233,14 @@ Fixpoint rlv_loop (fuel i : nat) (mods : list modcfg) (m : mst) (all : bool) : m
 Definition lludp_dispatch (c : msgcfg) (m : mst) : option (mst * list ev * bool) :=
   match mkind c with
   | KCommand =>
-    (* region.circuit.drop_message(message) -- not guarded, not inside a try *)
-    match drop m with
+    (* if not message.finalized: region.circuit.drop_message(message)     (repaired: /repo d9b7ff1) *)
+    match (if finalized m then Some (m, []) else drop m) with
     | Some (m1, ws) => Some (m1, map orig_ev ws ++ [ECmd], true)
     | None => None
     end
   | KRlv n =>
-    let '(m1, e1, all) := rlv_loop n 0 (mmods c) m true in
+    (* all_cmds_handled = bool(commands)                                  (repaired: /repo 40d86e5) *)
+    let '(m1, e1, all) := rlv_loop n 0 (mmods c) m (Nat.ltb 0 n) in
     if all then Some (m1, e1, true)
     else let '(m2, e2, r) := call_all PtLludp 0 (mmods c) m1 in Some (m2, e1 ++ e2, r)
   | KPlain => Some (call_all PtLludp 0 (mmods c) m)
@@ -333,7 +334,7 @@ Definition hs_quiet (hs : hookset) : bool :=
   opt_all pbeh_quiet (h_pkt hs) && opt_all beh_quiet (h_lludp hs) && opt_all (forallb pbeh_quiet) (h_rlv hs).
 Definition mod_quiet (md : modcfg) : bool := forallb hs_quiet (m_subs md) && hs_quiet (m_self md).
 Definition kind_unclaimed (k : kind) : bool :=
-  match k with KPlain => true | KCommand => false | KRlv 0 => false | KRlv (S _) => true end.
+  match k with KPlain => true | KCommand => false | KRlv _ => true end.
 Definition cfg_unclaimed (c : msgcfg) : bool :=
   kind_unclaimed (mkind c)
   && forallb (fun kv => beh_noclaim (snd (snd kv))) (msubs c)
